@@ -23,6 +23,7 @@ out += ["", "## Seeds that were dropped", "",
         "- C10 round 2, mutation A (float printed in decimal whenever exact as a double): after the `fix:` commit 58a4c9d (exact decimal printing) the change no longer alters any printed literal's value under LLVM's reading; its demonstration passes, so it is not a violation any more and was not kept.",
         "- C18 round 1, mutation A (the DISPFlag printer stops walking at the first bit without a name, losing DISPFlagObjCDirect): after the `fix:` commit 1ad91e2 bits the walk does not name are printed as one integer, so the same change now prints `... | 2048`, which reads back as the same flag set; not a violation any more.",
         "- C20 round 3, mutation E (the parser places metadata definitions with small IDs directly at their index and fills the gaps with the others, which leaves Module.MetadataDefs out of ID order for sparse numbering): since the `fix:` commit 72ae51f the printer lists metadata definitions by ascending ID whatever the order of the slice, so the printed module is in order again; not a violation of C20 any more.",
+        "- C04 round 4, mutation E (named types looked up under LocalIdent.Name() instead of getTypeName) and C11 round 5, mutation G (findBlock compares Name() of the blocks): both lived on Name() re-formatting number-like names (007, +7 -> \"7\"); since the `fix:` commit that makes Name() keep all-digit names verbatim and every other name as it is, Name() is injective and both changes are harmless (their demonstrations pass).",
         ]
 open('/verif/seeded/RESULTS.md', 'w').write("\n".join(out) + "\n")
 print("wrote RESULTS.md:", len(rows), "seeds,", len(missed), "initially missed")
